@@ -1,21 +1,4 @@
-mod ch;
-mod corpus;
-mod decode;
-mod dwarf;
-mod edits;
-mod exec;
-mod gen;
-mod interp;
-mod iso;
-mod mutate;
-mod names;
-mod ops;
-mod optable;
-mod props;
-mod reach;
-mod run;
-mod spy;
-mod wal;
+use walrus_verif::*;
 
 use run::*;
 
